@@ -36,6 +36,17 @@ def _run_instance(key, params, budget_s, seed, conn):
         from harness import api
         qnum.reset(seed)
         sc = api.SCENARIOS[tuple(key)]
+        # the instance parameters have to fit the scenario's own signature: a mismatch is an error of the checker (it would
+        # otherwise surface as an "unexpected TypeError" of the code under test)
+        import inspect
+        try:
+            inspect.signature(sc.func).bind(None, **{k: v for k, v in params.items() if k != '_native'})
+        except TypeError as e:
+            out['undecided'] = {'kind': 'error', 'why': 'scenario parameters do not fit its signature: %s' % e, 'tb': ''}
+            out['wall_s'] = time.time() - t0
+            conn.send(out)
+            conn.close()
+            return
         sys.stdout = open(os.devnull, 'w')      # the library prints (e.g. rejected insertions); keep check output clean
 
         def setup(w):
